@@ -181,7 +181,8 @@ pub fn chk_default_reset<T: GrTy>() {
     let pending: [u8; 128] = any();
     // every (fill, chaining value, counter) combination, in particular the empty buffer with counter 0 and a
     // used chaining value that finalize_into_dirty leaves behind
-    let (mut h, _cv, _c) = if any::<bool>() { arbitrary_state::<T>(&pending, 0, 0) } else { arbitrary_state::<T>(&pending, 5, 0) };
+    let (mut h, _cv, _c) = arbitrary_state::<T>(&pending, 0, 0);
+    if any::<bool>() { h.update(&pending[..5]); } // five pending bytes: nothing is compressed, the state stays arbitrary
     rec::reset();
     h.reset();
     obl!(rec::count() == 1 && entry_is(0, 3, &iv, T::B, None), "reset_recreates_the_variant_iv");
